@@ -464,7 +464,7 @@ sc_MPI_Pack (const void *inbuf, int incount, sc_MPI_Datatype datatype,
   SC_CHECK_MPI (mpiret);
 
   /* Check that we have enough space to pack the datatypes */
-  if (*position + size > outsize) {
+  if (size > outsize - *position) {
     return sc_MPI_ERR_NO_SPACE;
   }
 
@@ -490,7 +490,7 @@ sc_MPI_Unpack (const void *inbuf, int insize, int *position,
   SC_CHECK_MPI (mpiret);
 
   /* Check that the message is big enough for the datatypes that we want */
-  if (*position + size > insize) {
+  if (size > insize - *position) {
     return sc_MPI_ERR_NO_SPACE;
   }
 
